@@ -304,6 +304,17 @@ func main() {
 		if !relClose(mcen[0], mwx, 12*scale) || !relClose(mcen[1], mwy, 12*scale) {
 			c.Failf("multipolygon-centroid", "centroid(multi) = %v, exact = (%v,%v) | %s", mcen, mwx, mwy, desc())
 		}
+		// a member whose holes cancel its outer ring exactly (area 0) weighs nothing: it must not disturb the
+		// centroid of the multi-polygon or collection it sits in
+		hole0 := outer.Clone()
+		hole0.Reverse()
+		zero := orb.Polygon{outer.Clone(), hole0}
+		for zi, zg := range []orb.Geometry{orb.MultiPolygon{zero, orb.Polygon{p2r}}, orb.MultiPolygon{orb.Polygon{p2r}, zero}, orb.Collection{zero, orb.Polygon{p2r}}} {
+			zc, za := planar.CentroidArea(zg)
+			if za != f64(p2a) || !relClose(zc[0], f64(p2cx), 12*scale) || !relClose(zc[1], f64(p2cy), 12*scale) {
+				c.Failf("zero-area-member", "CentroidArea of form %d holding a polygon whose hole cancels its outer ring = %v, %v; want the other member's %v, %v, %v | %s", zi, zc, za, f64(p2cx), f64(p2cy), f64(p2a), desc())
+			}
+		}
 		// collection mixing dimensions: only the top-dimensional members count
 		col := orb.Collection{fpt(tr(t, ipt{100, 100})), poly, orb.LineString{fpt(tr(t, ipt{0, 0})), fpt(tr(t, ipt{50, 50}))}, orb.Polygon{p2r}, orb.Collection{orb.MultiPoint{fpt(tr(t, ipt{3, 3}))}}}
 		ccen, ca := planar.CentroidArea(col)
